@@ -1185,3 +1185,37 @@ def r17_4(rep):
                 v = strip(f["e"]).get("v")
     rep.check(v is True, "cargo:new:header-files-on", "`CargoCallbacks::new()` reports input headers (rerun_on_header_files = %r)" % (v,),
               nb.loc(nb.root))
+
+
+@RULES.rule("R17.5", "depfile text is assembled from whole strings/chars: no byte is turned into a char on its own", floor=1)
+def r17_5(rep):
+    """`b as char` on the bytes of a path maps every byte >= 0x80 to a Latin-1 character: a non-ASCII file name
+    (`münze.h`) is written to the depfile as a different name (`mÃ¼nze.h`) that was never read, and the real file is
+    missing from the list."""
+    prog = rep.prog
+    roots = [p for p, b in prog.bodies.items() if "deps::DepfileSpec" in p or p.startswith("deps::")]
+    rep.need(roots, "functions of bindgen::deps")
+    seen = 0
+    stack = list(roots)
+    done = set()
+    while stack:
+        p = stack.pop()
+        if p in done or p not in prog.bodies:
+            continue
+        done.add(p)
+        b = prog.bodies[p]
+        if "::tests::" in p:
+            continue
+        seen += 1
+        for n in b.walk():
+            if n["k"] == "Cast" and b.ty(n) == "char" and b.ty(strip(n["e"])) == "u8":
+                rep.bad("byte-as-char@" + p.split("::")[-1], "`%s as char` widens a single UTF-8 byte to a character: non-ASCII paths are "
+                        "written as different names" % b.canon(n["e"], 3), b.loc(n))
+            if n["k"] in ("Call", "MCall") and re.search(r"(from_utf8_unchecked|from_utf8_lossy|char::from_u32_unchecked|<char as std::convert::From<u8>>::from)",
+                                                          n.get("resolved") or n.get("callee") or ""):
+                rep.bad("lossy-conversion@" + p.split("::")[-1], "`%s` in the depfile text path" % (n.get("callee")), b.loc(n))
+        for c in b.calls():
+            t = c.get("resolved") or c.get("callee") or ""
+            if t.startswith("deps::"):
+                stack.append(t)
+    rep.ok("functions-scanned:%d" % seen)
